@@ -121,3 +121,35 @@ fn replay_register_intent() {
     drop(g);
     assert!(cas.index.pending_intents.lock().is_empty(), "dropping the guards must remove the intents");
 }
+
+
+// C13: an abandoned transaction leaves nothing in staging/ once its drop has returned - for small and large amounts written
+// (below and above buffer sizes and typical "large file" thresholds), in one and in many chunks.
+#[cfg(test)]
+#[test]
+fn replay_abandon_leaves_nothing() {
+    let dir = tempfile::tempdir().unwrap();
+    let cas: Cas<String> = Cas::open(dir.path(), cfg2()).unwrap();
+    let staging = cas.paths.staging_root_path().to_path_buf();
+    let count = || std::fs::read_dir(&staging).map(|d| d.count()).unwrap_or(0);
+    assert_eq!(count(), 0);
+    let mut bad = Vec::new();
+    for (total, chunk) in [(0usize, 1usize), (1, 1), (5000, 5000), (8192, 4096), (70_000, 70_000), (1 << 20, 4096), ((1 << 20) + 1, 1 << 20),
+                           (3 << 20, 65_536), ((16 << 20) + 1, 1 << 20), (33 << 20, 4 << 20)] {
+        let mut tx = cas.put(format!("abandoned-{total}")).unwrap();
+        let buf = vec![0x5Au8; chunk.max(1)];
+        let mut left = total;
+        while left > 0 {
+            let n = left.min(chunk);
+            tx.write(&buf[..n]).unwrap();
+            left -= n;
+        }
+        drop(tx);
+        let n = count();
+        if n != 0 {
+            bad.push(format!("after dropping a transaction that wrote {total} bytes, staging/ holds {n} file(s)"));
+            for e in std::fs::read_dir(&staging).unwrap().flatten() { let _ = std::fs::remove_file(e.path()); }
+        }
+    }
+    assert!(bad.is_empty(), "{}", bad.join("; "));
+}
